@@ -67,7 +67,17 @@ def class_beh(js, c, obj=None):
             tv[n] = {k: v.is_valid(x, {"type": n}) for k, x in PROBE.items()}
         except js.exceptions.UnknownType:
             tv[n] = "undefined"
-    return {"types": types, "kw": sorted(kw), "idkw": id_probe(js, c, True), "type_keyword": tv}
+    cs = {}
+    if obj is None:
+        for name, probe in (("title", {"title": 1}), ("minlen", {"minLength": -1})):
+            try:
+                c.check_schema(probe)
+                cs[name] = "accept"
+            except js.exceptions.SchemaError:
+                cs[name] = "reject"
+            except js.exceptions.UnknownType:
+                cs[name] = "undefined"
+    return {"types": types, "kw": sorted(kw), "idkw": id_probe(js, c, True), "type_keyword": tv, "cs": cs}
 
 
 def fc_beh(fc):
@@ -142,7 +152,8 @@ def replay_one(ex):
                 got = class_beh(js, c)
                 want = beh["cls"][i]
                 if got["types"] != want["types"] or got["kw"] != sorted(want["kw"]) or got["idkw"] != want["idkw"] or \
-                        any(got["type_keyword"][n] != want["types"][n] for n in ("integer", "newtype")):
+                        any(got["type_keyword"][n] != want["types"][n] for n in ("integer", "newtype")) or \
+                        any(want["cs"][n] != "skip" and got["cs"][n] != want["cs"][n] for n in ("title", "minlen")):
                     probs.append((step, "class", i + 1, got, want))
             for i, v in enumerate(vals):
                 got = class_beh(js, type(v), obj=v)
@@ -198,7 +209,7 @@ def main(args):
                "among all objects created so far (spec/Registry, MC_C16: action property Undisturbed, invariant "
                "ExtendIdentity); each history is replayed with real objects and EVERY live type checker, class, validator "
                "object and format checker is probed after EVERY step (is_type tables, the type keyword, overridden / added "
-               "keywords, which id keyword is honoured, format functions) and compared with the model's table; registries "
+               "keywords, which id keyword is honoured, what check_schema accepts, format functions) and compared with the model's table; registries "
                "are restored between histories. Non-trivial: a history that creates >= 2 objects; distinct by history." % nops)
     jobs = [dict(module="mc/MC_C16.tla", cfg="mc/MC_C16_%s_b%d.cfg" % (args.tier, b), workers=4 if quick else 16, timeout=7000,
                  heap="5g" if quick else "12g", lazy_exports=True) for b in (1, 2, 3, 4)]
